@@ -273,6 +273,9 @@ func RDB(t *tape.Tape, o RDBOpts) (file []byte, recs []rc.Record, version int, i
 		if !o.NoExpiry && t.Choose(3) == 2 {
 			base := o.NowMs
 			switch {
+			case (o.FutureOnly || t.Choose(3) != 2) && t.Choose(8) == 7:
+				// far future: seconds that no longer fit 31 bits (19 Jan 2038), the year 2100, the last 32-bit second
+				it.ExpireMs = 1000 * []uint64{1 << 31, 1<<31 - 1, 4102444800, 1<<32 - 1, 1<<31 + 12345}[t.Choose(5)]
 			case o.FutureOnly || t.Choose(3) != 2:
 				it.ExpireMs = base + 1000*uint64(4*3600+t.Choose(100000)) // beyond any simulated run (MaxSimTime <= 3 h): a live key never expires under the oracle's feet
 			default:
